@@ -32,6 +32,8 @@ def run(ctx):
     ctx.call(GR.name_forms, "7n")
     ctx.call(GR.node_objects, "8")
     ctx.call(GR.worker_symmetry, "9")
+    # cloning re-links dependants through descend_from_node: both views of an edge carry the same objects
+    ctx.call(GR.edge_symmetry, "9e")
     ctx.call(GR.flat_expansion, "10")
     ctx.call(GR.dependency_table, "11")
 
